@@ -252,6 +252,58 @@ fn one_case(ctx: &WorkerCtx, rep: &mut WorkerReport, case_seed: u64, boundary: b
             rep.nontrivial("callmany-sequence".to_string());
         }
     }
+    // targets named by the inscription id of a deployment: the target is whatever contract that
+    // deployment created - read through brc20_getTxReceiptByInscriptionId - and the burn address if it
+    // created none (reverted init code, or a deployment the EVM refused outright, whose nonce the
+    // sender's next deployment then uses)
+    if rep.violations.is_empty() {
+        let p = format!("5120{:056x}{:08x}", (case_seed ^ 0x1d) as u128, 0x1du32);
+        let p_addr = hist::addr_hex(&hist::pk_address(&p));
+        let mut ids: Vec<(String, &str)> = Vec::new();
+        let deployments: Vec<(&str, Vec<u8>, u64)> = vec![
+            ("refused", asm::tool_init(), 1),                 // 12 000 gas: below the intrinsic cost, refused by the EVM
+            ("reverting-init", vec![0x60, 0x00, 0x60, 0x00, 0xfd], 100_000),
+            ("ok", asm::tool_init(), 1_000_000),              // lands on the address the refused one would have had
+            ("halting-init", vec![0xfe], 100_000),
+            ("ok-2", asm::tool_init_with_ctor(), 1_000_000),
+        ];
+        for (name, init, len) in deployments {
+            let (ts, hash) = bed.next_block();
+            bed.uniq += 1;
+            let iid = format!("c17-dep-{}-{}i0", name, bed.uniq);
+            bed.d.exec(Op::Deploy { pk: p.clone(), data: hist::hx(&init), enc: Enc::Hex, ctx: Ctx { ts, hash: hash.clone(), idx: 0 }, iid: iid.clone(), len, txid: hist::ZERO_HASH.into() });
+            let n = bed.d.ntx;
+            bed.d.exec(Op::Finalise { ts, hash, count: n });
+            ids.push((iid, name));
+        }
+        for (iid, name) in ids {
+            let rc0 = bed.d.inst.call("brc20_getTxReceiptByInscriptionId", json!([iid]));
+            let resolved = rc0.ok().and_then(|v| v["contractAddress"].as_str().map(|x| x.to_lowercase())).unwrap_or_else(|| "0x000000000000000000000000000000000000dead".to_string());
+            let data = asm::tool_call(asm::OP_INC, &[asm::word_u64(1)], &[]);
+            let sim = bed.d.inst.call("eth_call", json!([{"from": p_addr, "to": resolved, "data": hist::hx(&data)}]));
+            let Some((sim_ok, sim_out)) = sim_result(&sim) else { continue };
+            let (ts, hash) = bed.next_block();
+            bed.uniq += 1;
+            let r = bed.d.exec(Op::Call { pk: p.clone(), target: Target::Iid(iid.clone()), data: Some(hist::hx(&data)), enc: Enc::Hex, ctx: Ctx { ts, hash: hash.clone(), idx: 0 }, iid: format!("c17-byid-{}i0", bed.uniq), len: 1_000_000, txid: hist::ZERO_HASH.into() });
+            let n = bed.d.ntx;
+            bed.d.exec(Op::Finalise { ts, hash, count: n });
+            let Some(rc) = hist::receipts_in(&r).into_iter().next() else {
+                rep.inconclusive(format!("no receipt for a call by inscription id ({}): {}", name, r.short()));
+                continue;
+            };
+            rep.evaluations += 1;
+            let exec_ok = rc["status"].as_str() == Some("0x1");
+            let out = if traces { bed.trace_output(&rc).unwrap_or_default().to_lowercase() } else { sim_out.clone() };
+            let to = rc["to"].as_str().unwrap_or("").to_lowercase();
+            if exec_ok != sim_ok || out != sim_out || to != resolved {
+                violation(rep, "C17", ctx.seed, &format!("call-by-inscription-id-differs:{}", name),
+                    format!("a call addressed by the inscription id of a deployment ({}) ran on {} with status {} and output {}, while eth_call to the contract that deployment created ({}) predicted status {} and output {}", name, to, exec_ok, out, resolved, sim_ok, sim_out),
+                    json!({"case_seed": case_seed, "network": net, "deployment": name, "inscription_id": iid, "receipt": rc}));
+                break;
+            }
+            rep.nontrivial(format!("call-by-inscription-id:{}", name));
+        }
+    }
     if rep.samples.len() < 2 {
         rep.sample(json!({"case_seed": case_seed, "network": net, "pairs": pairs, "height": bed.d.height, "last_calls": log_json(&bed.d.log, 2)}));
     }
